@@ -153,3 +153,22 @@ Definition pathsum_flat (which : bool) (d : nat) (table : list (Z * gmat)) (dkma
 Definition requests_flat (dkmax : option nat) (rect : bool) (n : nat) : list Z :=
   tempo_requests dkmax n ++ [999%Z] ++
   pt_requests n (match dkmax with Some m => m | None => n end) rect.
+
+(* ---- influence_matrix (C01, C04, C06, C12) --------------------------------------------- *)
+From OQ Require Import Model.Shapes.
+Definition shape_code (s : shape) : Z := match s with UpperTriangle => 0 | Square => 1 | Rectangle => 2 end.
+Definition infl_args_flat (dk : Z) (dt : float) (dkmax : option Z) (tau : option float) : list Z :=
+  match infl_args dk dt dkmax tau with
+  | None => [(-1)%Z]
+  | Some (s, t1, t2) => shape_code s :: flat_fbits t1 ++ (match t2 with None => [0%Z] | Some t => 1%Z :: flat_fbits t end)
+  end.
+(* exponent matrix for eta = (er + i ei) (integers after scaling), integer spectra m, p;
+   optional degeneracy positions (north for rows, west for columns) *)
+Definition exponent_flat (er ei : Z) (m p : list Z) (north west : option (list nat)) (diag_only : bool) : list Z :=
+  let mf := fun i => ((nth i m 0%Z, 0%Z) : G) in
+  let pf := fun i => ((nth i p 0%Z, 0%Z) : G) in
+  let e := fun i j => @exponent GK ((0%Z, 1%Z) : G) ((er, 0%Z) : G) ((ei, 0%Z) : G) mf pf i j in
+  let rows := match north with Some l => l | None => seq 0 (length m) end in
+  let cols := match west with Some l => l | None => seq 0 (length m) end in
+  if diag_only then flatG (map (fun i => e i i) rows)
+  else flatG (flat_map (fun i => map (fun j => e i j) cols) rows).
